@@ -330,14 +330,16 @@ CHECKS = {
         "level": "exploration",
         "rule": "cases = generated programs issuing arbitrary SB/SC write sequences (LDH, LD (a16), LD (C), LD (HL)) from ROM (translated in jit builds), work RAM and high RAM, "
                 "and structured programs with handlers/HALT/DMA/bank switches; file descriptor 1 of the worker is captured and must equal, byte for byte, the SB value at each SC "
-                "write with bit 7 (from the hook-H1 log); jit build: translation-cache pressure without serial writes must leave stdout empty; end to end: the repository's own "
+                "write with bit 7 (from the hook-H1 log); jit build: translation-cache pressure without serial writes must leave stdout empty; quiet sweep: every value written to "
+                "every bank-register area and every I/O register (except SC with bit 7) of 8 cartridge kinds, cartridge RAM accesses, LCD off/on and two frames of time must leave stdout empty; end to end: the repository's own "
                 "binaries (hooks off, jit on and off) must print exactly the loader line plus the serial bytes. distinct_nontrivial = distinct programs",
         "phases": [
             {"variant": "interp-dbg", "monitor": "c18", "shards": 16, "also_build": ["repo-bin", "repo-bin-jit"],
              "env": {"GBV_REPO_BIN": "{repo_bin}", "GBV_REPO_BIN_JIT": "{repo_bin_jit}"}},
             {"variant": "jit-dbg", "monitor": "c18", "shards": 16, "args": {"noreal": 1}},
         ],
-        "floors": {"quick": {"evaluations": 500, "sc-writes-with-bit7": 5_000, "sc-writes-without-bit7": 1_000, "runs-of-the-real-binaries": 30, "cache-pressure:blocks-translated": 5_000},
+        "floors": {"quick": {"evaluations": 500, "sc-writes-with-bit7": 5_000, "sc-writes-without-bit7": 1_000, "runs-of-the-real-binaries": 30, "cache-pressure:blocks-translated": 5_000,
+                             "quiet-sweep:writes-with-stdout-captured": 1_000_000},
                    "thorough": {"evaluations": 3_000}},
         "exhaustive": {"quick": False, "thorough": False},
         "assumptions": ["the end-to-end part waits until the binary's output has been quiet for 150 ms before stopping it (wall clock only bounds the wait; a slow machine can only make the run longer)"],
